@@ -66,3 +66,7 @@ impl EncoderValue for Padding {
         encoder.write_repeated(self.length, 0)
     }
 }
+
+#[cfg(all(aws_s2n_quic_verif, test))]
+#[path = "/verif/harness/core/frame_padding.rs"]
+mod verif;
